@@ -272,6 +272,18 @@ func (s *StubECDSASigner) Sign(_ io.Reader, digest []byte, _ crypto.SignerOpts) 
 			panic(err)
 		}
 		return b, nil
+	case "no-sign-octet":
+		// some tokens omit the 0x00 that DER needs in front of an INTEGER whose first octet is >= 0x80
+		// (read strictly, such an INTEGER is negative)
+		enc := func(x *big.Int) []byte {
+			b := x.Bytes()
+			return append([]byte{0x02, byte(len(b))}, b...)
+		}
+		body := append(enc(s.R), enc(s.S)...)
+		if len(body) < 0x80 {
+			return append([]byte{0x30, byte(len(body))}, body...), nil
+		}
+		return append([]byte{0x30, 0x81, byte(len(body))}, body...), nil
 	case "long-length":
 		d := DER(s.R, s.S)
 		if len(d) >= 2 && d[1] < 0x80 {
@@ -289,4 +301,12 @@ type WrapSigner struct{ K crypto.Signer }
 func (w WrapSigner) Public() crypto.PublicKey { return w.K.Public() }
 func (w WrapSigner) Sign(r io.Reader, d []byte, o crypto.SignerOpts) ([]byte, error) {
 	return w.K.Sign(r, d, o)
+}
+
+// StubECDSAMessageSigner is a StubECDSASigner whose type also offers SignMessage (the shape of
+// Go 1.25's crypto.MessageSigner): whichever entry point a caller uses, it answers with the DER of (R, S).
+type StubECDSAMessageSigner struct{ StubECDSASigner }
+
+func (s *StubECDSAMessageSigner) SignMessage(rand io.Reader, msg []byte, opts crypto.SignerOpts) ([]byte, error) {
+	return s.Sign(rand, msg, opts)
 }
